@@ -213,7 +213,7 @@ Proof.
       cbn [host_handle]. rewrite N.eqb_refl.
       set (h := s_st s) in *. set (h' := set_host h (h_name h) (h_prev h) true (h_suffix h)).
       destruct (hi_probe _ _ I Hr) as (P1 & P2 & P3 & P4).
-      destruct (bytes_eqb (h_name h) (h_prev h)) eqn:E.
+      rewrite ?host_announce_old in *. destruct (bytes_eqb (h_name h) (h_prev h)) eqn:E.
       * (* same name as before: silent *)
         cbn [app apply_effs fst snd ghost_effs]. split.
         -- constructor; cbn [s_st s_now s_tm h' set_host h_reg h_name h_prev]; try discriminate.
@@ -451,7 +451,7 @@ Proof.
       intros [H|[]]. discriminate.
   - destruct (tid =? T_REG)%N.
     + cbn [snd]. intro H. apply in_app_iff in H as [H|[H|[]]]; [|discriminate].
-      destruct (bytes_eqb (h_name h) (h_prev h)); [destruct H|destruct H as [H|[]]; discriminate].
+      rewrite ?host_announce_old in *. destruct (bytes_eqb (h_name h) (h_prev h)); [destruct H|destruct H as [H|[]]; discriminate].
     + unfold on_rebroadcast. intro H. eexists. apply (assert_sendall _ m H).
   - intros [].
 Qed.
